@@ -210,6 +210,9 @@ pub enum BOp {
     StructOfForward,
     /// type_pointer(None, Function, T) where T is the result id of the most recent declaration in types_global_values
     PointerToLast,
+    /// insert_types_global_values(Begin | FromBegin(1) | FromEnd(1), OpTypeBool with the explicit id 90 + k): a caller
+    /// placing a declaration anywhere but at the end (FromBegin / FromEnd need at least one declaration)
+    InsertTypeGlobal(u8),
 }
 
 /// names for NameAny / SelectByText: plain, prefixes of each other, multi-byte characters, mangled forms
@@ -499,6 +502,19 @@ pub fn replay(h: &[BOp]) -> Replay {
                 BOp::SelectByName(k) => ok = b.select_function_by_name(&format!("f{}", k)).is_ok(),
                 BOp::SelectByText(j) => ok = b.select_function_by_name(TEXTS[*j]).is_ok(),
                 BOp::Phi => ok = res_word!(b.phi(RT, None, vec![(6, 7)])),
+                BOp::InsertTypeGlobal(k) => {
+                    if *k > 0 && cur.secs[10].is_empty() {
+                        disabled = true;
+                        break 'steps;
+                    }
+                    let ip = match k {
+                        0 => InsertPoint::Begin,
+                        1 => InsertPoint::FromBegin(1),
+                        _ => InsertPoint::FromEnd(1),
+                    };
+                    b.insert_types_global_values(ip, dr::Instruction::new(spirv::Op::TypeBool, None, Some(90 + *k as u32), vec![]));
+                    ok = true;
+                }
                 BOp::ForwardPointerFresh => {
                     let p = b.id();
                     b.type_forward_pointer(p, spirv::StorageClass::Function);
@@ -777,6 +793,16 @@ pub fn replay(h: &[BOp]) -> Replay {
                     } else {
                         Pred::Ok { snap: append_block(&cur, inst("Phi", Some(RT), ret_id, vec![Arg::IdRef(6), Arg::IdRef(7)])), sel, fresh: ret_id }
                     }
+                }
+                BOp::InsertTypeGlobal(k) => {
+                    let mut n = cur.clone();
+                    let at = match k {
+                        0 => 0,
+                        1 => 1,
+                        _ => n.secs[10].len() - 1,
+                    };
+                    n.secs[10].insert(at, inst("TypeBool", None, Some(90 + *k as u32), vec![]));
+                    Pred::Ok { snap: n, sel, fresh: None }
                 }
                 BOp::ForwardPointerFresh => Pred::Ok { snap: append_global(&cur, inst("TypeForwardPointer", None, None, vec![Arg::IdRef(ret_id.unwrap()), Arg::Enum("StorageClass", spirv::StorageClass::Function as u32)])), sel, fresh: ret_id },
                 BOp::ForwardPointerOfArg(si) => {
